@@ -55,6 +55,7 @@ Issue == /\ Is("Issue")
 Act == /\ Is("Act") /\ act' = Set(act, e.uid, e.seqs) /\ bad' = bad /\ l' = l + 1
        /\ UNCHANGED <<owner, seqOf, node, puid, drained, lens, retry, excused, deviations, cur>>
 
+ShortIds(n) == (IF n = 0 THEN lens[1] ELSE lens[2]) <= 4
 Linked(a, b) == At(puid, a, -1) = b \/ At(puid, b, -1) = a
 
 \* KNOWN FINDING (C09): an accepting endpoint with zero-length local IDs indexes its connections by
@@ -82,7 +83,10 @@ Rx == /\ Is("Rx")
          IN bad' = bad
               \* handed to a connection => that connection issued the destination ID
               \* (or its tail is the stateless reset token of an ID the connection's peer issued)
-              \cup Flag((e.uid # -1 /\ ~e.zl) => (o = e.uid \/ e.reset), "RoutedToNonIssuer")
+              \* (with IDs of at most 4 bytes an ID its last known issuer has given up may have been issued
+              \* again, to a connection that has not put it on the wire yet)
+              \cup Flag((e.uid # -1 /\ ~e.zl) => (o = e.uid \/ e.reset \/ (ShortIds(e.n) /\ o # -1 /\ ~activeAtOwner)),
+                        "RoutedToNonIssuer")
               \* zero-length IDs: the connection owns the address tuple
               \cup Flag((e.uid # -1 /\ e.zl) => e.rrem = e.src, "RoutedToWrongTuple")
               \* nothing is ever handed to a connection that is gone
